@@ -363,6 +363,8 @@ namespace sim
                   r.status = 2;
                 }
               r.sched = sched_end();
+              if (r.sched.dev != nullptr && !r.sched.dev_overflow)
+                r.sched_dev.assign(r.sched.dev, r.sched.dev + 2 * std::min<uint32_t>(r.sched.n_dev, 20000));
               r.threads_created = grid_threads_created();
               r.would_terminate = grid_would_terminate();
               r.worker_exceptions = grid_worker_exceptions();
@@ -1022,6 +1024,7 @@ namespace sim
   RunResult execute(const Scenario &s)
   {
     RunResult res;
+    const unsigned long fs_calls_before = simfs::calls();
     // process hygiene: a run means the same thing in a batch and in a fresh process
     simfs::reset();
     set_shortcut_mask(0);
@@ -1082,6 +1085,8 @@ namespace sim
         for (int id : ids)
           join(id);
         res.sched = sched_end();
+        if (res.sched.dev != nullptr && !res.sched.dev_overflow)
+          res.sched_dev.assign(res.sched.dev, res.sched.dev + 2 * std::min<uint32_t>(res.sched.n_dev, 20000));
         res.tsan_reports += tsan_report_count() - tsan_before;
       }
 
@@ -1220,15 +1225,24 @@ namespace sim
         if (r.engine_checked)
           {
             res.counters["engine_checks"]++;
-            if (!r.engine_ok)
+            // The engine model (documented number of draws per operation) is stricter than the property:
+            // a change of the number of draws per grain keeps "deterministic function of file, seed and
+            // query sequence" true. A mismatch is therefore an observation in the evidence, not a violation;
+            // leaks of engine state between worlds are caught by the differently interleaved twins.
+            if (!r.engine_ok && op.op == "create")
               {
+                // at creation the engine must be the documented std::mt19937 seeded with the file's
+                // 'random number seed' when that is >= 0, else with the constructor argument
                 Violation v;
-                v.cls = P + "/engine-state";
-                v.detail = "op " + std::to_string(q.index) + " " + op.op + ": random engine state differs from the model (expected " + std::to_string(op.draws) + " draws)";
-                v.site = op.op + ":" + op.via;
+                v.cls = P + "/seed-state";
+                v.detail = "op " + std::to_string(q.index) + " create (" + op.kind + ", constructor seed " + std::to_string(op.seed)
+                           + "): the engine is not std::mt19937 seeded with the effective seed";
+                v.site = "create:" + op.kind;
                 v.op_index = q.index;
                 res.violations.push_back(v);
               }
+            else if (!r.engine_ok)
+              res.counters["engine_model_mismatch"]++;
           }
         validity_checks(s, op, r, q.index, res);
         if (op.op == "tool")
@@ -1318,7 +1332,7 @@ namespace sim
         res.counters["buggify_S" + std::to_string(i)] += static_cast<long>(shortcut_fired(i));
     if (simfs::open_descriptors() != 0)
       res.counters["descriptors_left_open"] += simfs::open_descriptors();
-    res.counters["fs_calls"] = static_cast<long>(simfs::calls());
+    res.counters["fs_calls"] = static_cast<long>(simfs::calls() - fs_calls_before);
     return res;
   }
 }
